@@ -242,6 +242,11 @@ class CQueue(object):
         s.yield_point()
         self.items.append(pickle.loads(pickle.dumps(x)))
         self.n_put += 1
+        try:
+            uid = x[0]['uid']
+            self.world.n_results[uid] = self.world.n_results.get(uid, 0) + 1
+        except Exception:
+            pass
         s.bump(force=True)
 
     def get(self, block=True, timeout=None):
@@ -498,6 +503,7 @@ class World(object):
         self.results  = list()          # what went back to the master
         self.granted  = dict()          # uid -> slots at dispatch start
         self.grant_order = list()
+        self.n_results = dict()         # uid -> results put on the mp queue
         self.running  = dict()          # uid -> slots while the payload runs
         self.ran      = list()          # (uid, slots) of every payload start
         self.flaws    = list()          # in-flight violations
@@ -683,16 +689,17 @@ def judge(part, world):
     replay = {'part': 'a', 'scenario': scn['name'], 'schedule': list(s.choices)}
     names  = {t.tid: t.name for t in s.threads}
     found  = list()
+    out    = list()
 
     def viol(clause, site, trig, what):
         found.append(clause)
-        part.violation('%s|%s|%s' % (clause, site, trig),
+        out.append(('%s|%s|%s' % (clause, site, trig),
                        {'what': what, 'scenario': scn['name'],
                         'worker': '%d cores %d gpus' % (scn['cores'],
                                                         scn['gpus']),
                         'requests': scn['reqs'],
                         'schedule': [names.get(x, x) for x in s.choices][-40:],
-                        'deviations': s.preemptions()}, replay)
+                        'deviations': s.preemptions()}, replay))
 
     n_c, n_g = scn['cores'], scn['gpus']
     uids = sorted(world.reqs)
@@ -738,12 +745,16 @@ def judge(part, world):
         viol('watcher-alive',
              'DefaultWorker._dispatch' if uid else
              'DefaultWorker._result_watcher',
-             'second-result:%s' % world.payload(uid) if uid else
+             '%s:%s' % ('second-result'
+                        if world.n_results.get(uid, 0) > 1 else
+                        'process-unknown', world.payload(uid)) if uid else
              type(e).__name__,
              'the result watcher thread died with %r%s; results of later '
              'requests are never collected'
-             % (e, ' while handling a second result for %s (%s)'
-                   % (uid, world.reqs[uid]) if uid else ''))
+             % (e, ' while handling a result for %s (%s), for which %d '
+                   'results were put on the result queue'
+                   % (uid, world.reqs[uid], world.n_results.get(uid, 0))
+                   if uid else ''))
 
     per_uid = dict()
     starved = list()
@@ -845,6 +856,7 @@ def judge(part, world):
     order = tuple(x[0] for x in world.ran)
     conc  = max([len(x[3]) for x in world.ran] or [0])
     part.outcome(('a', scn['name'], obs, order, conc, world.end))
+    world.violations = out
     return found
 
 
@@ -969,6 +981,7 @@ def _job(i):
                          'c20.sbox.%d' % os.getpid())
     os.makedirs(_sbox, exist_ok=True)
     n = steps = 0
+    best = dict()       # key -> (rank, detail, replay): fewest deviations first
     try:
         for sch, w in rs.explore(lambda p: run_one(scn, p), scn['bound'],
                                  max_exec=scn.get('max_exec')):
@@ -985,14 +998,26 @@ def _job(i):
             steps += sch.n_steps
             found = judge(part, w)
             if found:
-                # determinism guard: the recorded schedule reproduces it
-                sch2, w2 = run_one(scn, list(sch.choices))
-                again = judge(report.Part(), w2)
-                if sorted(again) != sorted(found):
-                    part.violation('HARNESS#divergence|%s' % scn['name'],
-                                   '%s vs %s' % (found, again), None)
+                fresh = [v for v in w.violations
+                         if v[0] not in best or
+                         (v[1]['deviations'], len(sch.choices)) <
+                         best[v[0]][0]]
+                if fresh:
+                    # determinism guard: the recorded schedule reproduces it
+                    sch2, w2 = run_one(scn, list(sch.choices))
+                    again = judge(report.Part(), w2)
+                    if sorted(again) != sorted(found):
+                        part.violation('HARNESS#divergence|%s' % scn['name'],
+                                       '%s vs %s' % (found, again), None)
+                for key, detail, rep in fresh:
+                    best[key] = ((detail['deviations'], len(sch.choices)),
+                                 detail, rep)
+                part.nviol += len(w.violations)
     except rs.Divergence as e:
         part.violation('HARNESS#divergence|%s' % scn['name'], repr(e), None)
+    for key, (rank, detail, rep) in best.items():
+        detail['rank'] = [len(scn['reqs'])] + list(rank)
+        part.violation(key, detail, rep)
     part.cover(evaluations=n, states=steps, transitions=steps,
                traces_validated_against_impl=n, allotment_scenarios=1,
                allotment_executions=n,
@@ -1017,17 +1042,21 @@ def run(ctx):
     order = sorted(range(len(_scns)),
                    key=lambda i: (-_scns[i]['bound'], -len(_scns[i]['reqs']),
                                   _scns[i]['lines'] != 'all'))
+    best = dict()
     for res in seams.pmap(_job, order, ctx.workers, init=_pin):
-        keep = list()
         for key, detail, rep in res['violations']:
             if key.startswith('HARNESS#'):
                 errs.append((key, detail))
-            else:
-                keep.append((key, detail, rep))
-        res['violations'] = keep
+            elif key not in best or detail['rank'] < best[key][0]['rank']:
+                best[key] = (detail, rep)
+        res['violations']  = list()
+        res['nviol_extra'] = 0
         ctx.merge(res)
     if errs:
         raise RuntimeError('harness errors: %s' % errs[:3])
+    # per key the counterexample with the fewest requests / deviations
+    for key, (detail, rep) in sorted(best.items()):
+        ctx.violation(key, detail, rep)
     return len(_scns)
 
 
@@ -1040,6 +1069,8 @@ def replay(ctx, r):
     part = report.Part()
     sch, w = run_one(scn, r['schedule'])
     judge(part, w)
+    for key, detail, rep in w.violations:
+        part.violation(key, detail, rep)
     names = {t.tid: t.name for t in sch.threads}
     print('part (a): %s' % scn['name'])
     print('schedule :', [names.get(x, x) for x in sch.choices])
@@ -1049,7 +1080,8 @@ def replay(ctx, r):
     print('results  :', [(t['uid'], t.get('exit_code'), t.get('exception'))
                          for t in w.results])
     print('resources:', w.w._resources, 'pool:', list(w.w._pool))
-    print('watcher  :', w.watcher.state, repr(w.watcher.exc))
+    print('watcher  :', 'alive' if w.watcher_alive and not w.watcher.exc
+                        else 'died with %r' % (w.watcher.exc,))
     for k, (d, _) in part.violations.items():
         print('VIOLATED', k, '::', d['what'])
     return 1 if part.violations else 0
